@@ -41,7 +41,7 @@ META = {
         "model's own constructor builds from the present fields; the constructor log is checked by binding it to the signature",
         "field types are Any/int so that loaders do not transform the values",
     ],
-    "bound": {"quick": "signatures <= 3 parameters", "thorough": "signatures <= 4 parameters"},
+    "bound": {"quick": "signatures <= 4 parameters", "thorough": "signatures <= 5 parameters"},
 }
 
 
@@ -551,7 +551,7 @@ def run(tier):
     shards = []
     a_items = [(k, d) for k in DEFAULT_KINDS for d, _ in D + D_MUTABLE]
     shards += [("A", a_items[i::24]) for i in range(24)]
-    sigs = signatures(3 if tier == "quick" else 4)
+    sigs = signatures(4 if tier == "quick" else 5)
     shards += [("B", sigs[i::48]) for i in range(48) if sigs[i::48]]
     c_items = [(k, f) for k in ("dataclass", "attrs", "pydantic") for f, _ in FACTORIES]
     shards += [("C", c_items[i::6]) for i in range(6)]
